@@ -259,6 +259,19 @@ def run(chk):
     cs = it.watch_results["util:number_to_string"]
     oks = bool(cs) and all(term_of(c[2][0]) == ("attr", ("attr", ("param", "self"), "privkey"), "secret_multiplier") and term_of(c[2][1]) == ("attr", ("attr", ("param", "self"), "privkey"), "order") for c in cs)
     chk.ob("R09.3", "SigningKey.to_string = number_to_string(secret, privkey.order) (orderlen(order) bytes; from_string expects curve.baselen = orderlen(curve.order))", oks, loc=q, key="C09|R09.3|private", detail="private raw encoding is not number_to_string(secret multiplier, privkey.order)")
+    for fmt in ("ssleay", "pkcs8"):
+        it = W.interp()
+        it.watch_results["der:encode_octet_string"] = []
+        it.watch_results["der:encode_bitstring"] = []
+        it.analyse("keys:SigningKey.to_der", [sk], {"format": VConst(fmt)})
+        from sa.c12help import orderlen_term
+        oc = it.watch_results["der:encode_octet_string"]
+        Lp = orderlen_term(W, VInt(Lin.sym(("attr", ("attr", ("param", "self"), "privkey"), "order"))))
+        okfix = bool(oc)
+        inner = [c for c in oc if isinstance(c[2][0], VBytes) and c[4].proves_eq(c[2][0].length - Lp)]
+        okfix &= len(inner) >= 1
+        chk.ob("R09.3", "to_der(%s): the privateKey OCTET STRING holds exactly orderlen(privkey.order) bytes (fixed length, leading zeros kept)" % fmt, okfix, loc="keys:SigningKey.to_der", key="C09|R09.3|der-private|%s" % fmt,
+               detail="the privateKey field written by to_der(%s) is not the fixed-length big-endian scalar" % fmt)
     fd = norm_text(p.func("keys:SigningKey.from_der").node)
     chk.ob("R09.3", "SigningKey.from_der left-pads a short scalar to curve.baselen before the strict loader", "if len(privkey_str) < curve.baselen:" in fd and "* (curve.baselen - len(privkey_str)) + privkey_str" in fd, loc="keys:SigningKey.from_der", key="C09|R09.3|pad", detail="the left-padding of short private scalars changed")
     # ---------------- R09.4
